@@ -30,7 +30,23 @@ func baseClient(suite uint16, seed byte) *gmtls.Config {
 
 var app = [2]tlsk.App{{Writes: [][]byte{[]byte("c->s")}, Expect: 4}, {Writes: [][]byte{[]byte("s->c")}, Expect: 4}}
 
+// cloneConfigs: the library endpoints get Config.Clone() of what the unit built (what Dial,
+// GetConfigForClient callbacks and credential wrappers hand to the handshake)
+var cloneConfigs bool
+
+// cloned re-runs a unit with every library Config passed through Clone().
+func cloned(u harness.Unit) harness.Unit {
+	return harness.Unit{Name: u.Name + "/configs-through-Clone", Run: func(c *harness.Ctx) {
+		cloneConfigs = true
+		defer func() { cloneConfigs = false }()
+		u.Run(c)
+	}}
+}
+
 func run(cc, sc *gmtls.Config, pol wire.Policy) *tlsk.Outcome {
+	if cloneConfigs {
+		cc, sc = cc.Clone(), sc.Clone()
+	}
 	var cv, sv tlsk.View
 	return tlsk.Run(tlsk.GMEnd(cc, true, app[0], &cv, nil), tlsk.GMEnd(sc, false, app[1], &sv, nil), &cv, &sv, pol)
 }
@@ -537,7 +553,7 @@ var Prop = &harness.Prop{
 		return "mask 01 at every byte, mask 80 at every 8th byte; TLS: every byte of short messages, every 2nd byte of messages over 200 bytes"
 	},
 	Units: func(tier string) []harness.Unit {
-		u := []harness.Unit{maliciousServerUnit(), maliciousClientUnit()}
+		u := []harness.Unit{maliciousServerUnit(), maliciousClientUnit(), cloned(maliciousServerUnit()), cloned(maliciousClientUnit()), cloned(nameMatrixUnit()), cloned(callbackUnit())}
 		for _, s := range suites {
 			u = append(u, mitmUnit(s, false), mitmUnit(s, true))
 		}
@@ -551,7 +567,7 @@ var Prop = &harness.Prop{
 		for _, es := range []uint16{gmref.SuiteECDHERSAGCM, gmref.SuiteECDHEECDSAGCM} {
 			u = append(u, ecdheUnit(es, true), ecdheUnit(es, false))
 		}
-		u = append(u, tlsTicketIdentityUnit(), nameMatrixUnit(), callbackUnit(),
+		u = append(u, tlsTicketIdentityUnit(), gmTicketIdentityUnit(), nameMatrixUnit(), callbackUnit(),
 			renegIdentityUnit(gmref.SuiteAESCBC, 0x0303), renegIdentityUnit(gmref.SuiteAESGCM, 0x0303), renegIdentityUnit(gmref.SuiteAESCBC, 0x0301), renegIdentityUnit(gmref.SuiteECDHEECDSAGCM, 0x0303), renegIdentityUnit(gmref.SuiteECDHERSAGCM, 0x0303))
 		chd := 4
 		if tier == "thorough" {
